@@ -52,7 +52,7 @@ fn gen_case(ctx: &Ctx, shapes: &[usize], idx: u64) -> Case {
     let any_buffer = ctx.prop == "C15" || ctx.prop == "C14";
     let mut over = false;
     let mut v = v;
-    if any_buffer && rng.chance(1, 10) {
+    if (any_buffer && rng.chance(1, 10)) || (ctx.prop == "C03" && rng.chance(1, 16)) {
         if let Some(v2) = make_overlong(d, &v, &mut rng) {
             v = v2;
             over = true;
@@ -242,9 +242,10 @@ pub fn run(ctx: &Ctx, rep: &mut Report) {
             match &res {
                 Ok(()) => rep.violation(
                     format!("{}|accepted-unrepresentable-content|{}", ctx.prop, kind_path(d)),
-                    format!("{}: a value with more elements than the length type can count was accepted (read back: {})", vt.name, got_val.as_ref().map(|v| v.short()).unwrap_or_default()),
+                    format!("{}: content that the length or offset type cannot represent (more elements than L::MAX, or an item whose sealed offset is not below L::MAX) was accepted (read back: {})", vt.name, got_val.as_ref().map(|v| v.short()).unwrap_or_default()),
                     cj(),
                 ),
+                Err(_) if ctx.prop != "C15" => rep.count("outcome:unrepresentable:refused"),
                 Err(e) if aligned && e.kind != ErrorKind::InsufficientSize => rep.violation(
                     format!("{}|unrepresentable-content-wrong-error|{}|{}", ctx.prop, kind_path(d), kind_name(&e.kind)),
                     format!("{}: content that does not fit the length type answered with {:?}", vt.name, e),
